@@ -17,7 +17,7 @@ func init() {
 	register(&propDef{
 		ID: "C04",
 		Meta: propMeta{
-			Explanation: "Decides on every path of the server's handlers that the authorization mechanisms are in front of every key use: (R04a) every chi route other than the frozen public set {/health, /directory} is registered on a router derived from With(authmodel.Middleware(s.auth)), and the middleware calls the next handler only after Authenticate returned a nil error, with the authenticated UserInfo in the request context; (R04b) in every authenticated handler, any touch of Server.tokens, signinit.Init/InitKey, Token.GetKey or Key.Sign* (directly or through same-package helpers) is guarded by Config.GetKey err==nil AND UserInfo.Allowed(keyConf)==true where keyConf is the value that GetKey returned, and the token/key actually used derive from that keyConf / the same key name; (R04c) the failing sides of those guards return httperror problems whose Status folds to 401/403, as do the named refusals of the authenticators; (R04d) identity-bearing headers (X-Forwarded-*, Forwarded, X-Real-Ip, Ssl-Client-*) and TLS peer certificates are read only inside internal/realip, headers only on the trusted-proxy side, RemoteAddr is assigned only by realip.Middleware, and the trusted marker is set only under `proxied`; (R04e) no dereference of a missed map lookup anywhere in the module (malformed configuration yields an error, not a crash); (R04f) the key listing appends a name only when entry and resolved alias are not hidden, the alias resolved, and Allowed(resolved) is true; (R04g) each Authenticator returns success only after the client was recognised / the policy allowed, and the roles come from the recognised client; Allowed implementations return true only from a role/key equality; (R04i) trust configuration is used as configured: on the authentication path certificates are added only to pools created by that very call (never to a configured pool), trusted_proxies entries are parsed verbatim, and a bare address gets the full-length mask of its address family. (R04h) in a handler that resolves a key, every use of the ResponseWriter after the lookup and every success return is behind GetKey err==nil and Allowed(keyConf)==true.",
+			Explanation: "Decides on every path of the server's handlers that the authorization mechanisms are in front of every key use: (R04a) every chi route other than the frozen public set {/health, /directory} is registered on a router derived from With(authmodel.Middleware(s.auth)), and the middleware calls the next handler only after Authenticate returned a nil error, with the authenticated UserInfo in the request context; (R04b) in every authenticated handler, any touch of Server.tokens, signinit.Init/InitKey, Token.GetKey or Key.Sign* (directly or through same-package helpers) is guarded by Config.GetKey err==nil AND UserInfo.Allowed(keyConf)==true where keyConf is the value that GetKey returned, and the token/key actually used derive from that keyConf / the same key name; (R04c) the failing sides of those guards return httperror problems whose Status folds to 401/403, as do the named refusals of the authenticators; (R04d) identity-bearing headers (X-Forwarded-*, Forwarded, X-Real-Ip, Ssl-Client-*) and TLS peer certificates are read only inside internal/realip, headers only on the trusted-proxy side, RemoteAddr is assigned only by realip.Middleware, and the trusted marker is set only under `proxied`; (R04e) no dereference of a missed map lookup anywhere in the module (malformed configuration yields an error, not a crash); (R04f) the key listing appends a name only when entry and resolved alias are not hidden, the alias resolved, and Allowed(resolved) is true; (R04g) each Authenticator returns success only after the client was recognised / the policy allowed, and the roles come from the recognised client; Allowed implementations return true only from a role/key equality; (R04i) trust configuration is used as configured: on the authentication path certificates are added only to pools created by that very call (never to a configured pool), trusted_proxies entries are parsed verbatim, and a bare address gets the full-length mask of its address family; every store into ClientConfig.certs stores the result of x509.NewCertPool() made at that site (one pool per entry), and the client entry CertificateAuth.Authenticate recognises a caller as is nil, a lookup in Config.Clients or a range value behind Match()==true (no remembered verdicts). (R04h) in a handler that resolves a key, every use of the ResponseWriter after the lookup and every success return is behind GetKey err==nil and Allowed(keyConf)==true.",
 			NotDecided:  "correctness of X.509 chain matching (crypto/x509), of the OPA policy's answers, 401-vs-403 chosen by policy text at run time, and whether role-set semantics beyond 'an equality test guards true' are right.",
 			Assumptions: []string{"chi applies With() middlewares to every route registered on the derived router", "http.Request context values are only set by the middlewares enumerated"},
 		},
@@ -118,7 +118,7 @@ func runC04(c *Ctx) {
 	c.Rule(re, "no dereference of a missed map lookup (pointer element) anywhere in the module", 10)
 	c.Rule(rf, "list_keys appends a name only if not hidden (entry and resolved), resolved != nil and Allowed(resolved)", 1)
 	c.Rule("R04h", "in a handler that resolves a key, every use of the ResponseWriter after the lookup and every success return is guarded by GetKey err==nil and Allowed(keyConf)==true", 4)
-	c.Rule("R04i", "the trust configuration is used as configured: no request-time additions to configured certificate pools; proxy networks parsed verbatim with full-length host masks", 3)
+	c.Rule("R04i", "the trust configuration is used as configured: no request-time additions to configured certificate pools; one pool per client entry; proxy networks parsed verbatim with full-length host masks", 4)
 	c.Rule(rg, "authenticators succeed only for recognised clients / allowed policy decisions; Allowed returns true only from an equality of role or key name", 6)
 
 	authHandlers := c04Routes(c, ra)
@@ -987,7 +987,7 @@ func c04Authenticators(c *Ctx, rg, rc string) {
 		c.Check(ok, rg, "(*internal/authmodel.CertificateAuth).Authenticate roles-from-client", p.Pos(ca.Pos()), "CertificateInfo.Roles = client.Roles", "the authenticated user's roles are not those of the recognised client entry")
 		// a CA-matched client requires Match()==true
 		match := p.callGuard("Match()==true", []string{"(*config.ClientConfig).Match"}, 0, IsTrue, nil)
-		n := 0
+		n, nOther := 0, 0
 		for _, b := range ca.Blocks {
 			for _, in := range b.Instrs {
 				ph, ok := in.(*ssa.Phi)
@@ -1000,8 +1000,26 @@ func c04Authenticators(c *Ctx, rg, rc string) {
 						if _, isNext := ex.Tuple.(*ssa.Next); isNext {
 							n++
 							c.Check(!leafUnguarded(ca, lf, match), rg, fmt.Sprintf("(*internal/authmodel.CertificateAuth).Authenticate CA-client#%d", n), p.Pos(ph.Pos()), "client selected by CA only when Match() returned true", "a client entry is selected by iteration without its Match() having succeeded")
+							continue
 						}
 					}
+					// every other source of the client entry: nil, or a lookup in the configured table
+					if isNilConst(lf.V) {
+						continue
+					}
+					fromConfig := false
+					switch x := lf.V.(type) {
+					case *ssa.Lookup:
+						_, f, _ := p.fieldLoad(x.X)
+						fromConfig = f == "Clients"
+					case *ssa.Extract:
+						if lk, ok := x.Tuple.(*ssa.Lookup); ok {
+							_, f, _ := p.fieldLoad(lk.X)
+							fromConfig = f == "Clients"
+						}
+					}
+					nOther++
+					c.Check(fromConfig, rg, fmt.Sprintf("(*internal/authmodel.CertificateAuth).Authenticate client source#%d", nOther), p.Pos(ph.Pos()), "looked up in Config.Clients", "the client entry a caller is recognised as comes from somewhere other than the configured table or a Match() of the presented chain in this very request ("+describeVal(p, lf.V)+"): a verdict remembered from an earlier request is keyed by less than the chain that earned it, so another certificate with the same key (self-signed, expired, from an unknown CA) is given the roles of the CA entry")
 				}
 			}
 		}
@@ -1126,6 +1144,32 @@ func c04TrustConfig(c *Ctx) {
 		}
 	}
 	c.Check(okMask && nMask == 2, ri, "a bare proxy address becomes a single-host network of its family", p.Pos(pt.Pos()), "CIDRMask(32,32) / CIDRMask(128,128)", "a bare address in trusted_proxies is not given the full-length mask of its address family: more hosts than the configured one are trusted to assert client identities")
+	// every client entry's pool is a pool of its own, made where it is stored
+	nPool := 0
+	for _, fn := range p.Funcs {
+		for _, b := range fn.Blocks {
+			for _, in := range b.Instrs {
+				st, ok := in.(*ssa.Store)
+				if !ok {
+					continue
+				}
+				if t, f, _ := p.fieldAddr(st.Addr); t != "config.ClientConfig" || f != "certs" {
+					continue
+				}
+				nPool++
+				call, isCall := stripConv(st.Val).(*ssa.Call)
+				fresh := isCall && p.calleeName(call.Common()) == "crypto/x509.NewCertPool"
+				if fresh && reachableAfter(fn, st, st, nil, nil) && !reachableAfter(fn, st, call, nil, nil) {
+					// the store runs once per entry, the pool is made once before the loop
+					fresh = false
+				}
+				c.Check(fresh, ri, fmt.Sprintf("%s gives a client entry a certificate pool of its own #%d", p.FName(fn), nPool), p.Pos(st.Pos()), "x509.NewCertPool()", "the pool stored into a client entry is not the result of x509.NewCertPool() at this site ("+describeVal(p, st.Val)+"): a pool shared between entries is whatever the first entry put into it, so a certificate issued by one entry's CA is matched against another entry's and gets that entry's roles")
+			}
+		}
+	}
+	if nPool == 0 {
+		c.Undecided(ri, "ClientConfig.certs is filled", "-", "no store into config.ClientConfig.certs found")
+	}
 }
 
 // dependsOnNoCall: like dependsOn, but does not look through calls.
